@@ -753,7 +753,7 @@ def part_from_matchfile(
         # TODO
         # * use key estimation if there are multiple defined keys
         # fifths, mode = key_name_to_fifths_mode(key_name)
-        part.add(score.KeySignature(keys.fifths, keys.mode), ks_bar)
+        part.add(score.KeySignature(keys.fifths, keys.mode), bar_start_divs)
 
     add_staffs(part)
     # add_clefs(part)
